@@ -339,9 +339,6 @@ func vC20Direct(o *vC20Out, r *rand.Rand, n int) {
 			if ref := vC20RefEmbed(p, v4); !ref.Equal(emb) || len(emb) != 16 {
 				goFail = fmt.Sprintf("embedIPv4(%s, %s) = %x, RFC 6052 reference %x", p, v4, []byte(emb), []byte(ref))
 			}
-			if vC20IsMapped(emb) && !vC20IsMapped(p.IP) {
-				fkey = "dns64-zero-prefix-mapped"
-			}
 		}
 		k := "embed-illegal"
 		if valid {
@@ -391,10 +388,6 @@ func vC20Direct(o *vC20Out, r *rand.Rand, n int) {
 			if r.Intn(2) == 0 {
 				addr = append(addr[:12:12], vC20RandV4(r)...)
 			}
-		}
-		if addr.To4() != nil && !vC20IsMapped(p.IP) {
-			// 4-byte or ::ffff:a.b.c.d form: Contains shortens it before comparing
-			fkey = "dns64-zero-prefix-mapped"
 		}
 		ext, ok := extractIPv4(p, addr)
 		bits, _ := p.Mask.Size()
@@ -1149,34 +1142,10 @@ func vC20Run(o *vC20Out, sc *vC20Scenario, passNontrivial bool) {
 	default:
 		k += "abasis-or-fallback"
 	}
+	// the three findings this driver used to tag (SOA TTL/MINIMUM 0, AD on the
+	// stripped fall-back, ::ffff: form under an all-zero prefix) are fixed in
+	// 3d56ccc: such cases are judged strictly now
 	fkey := ""
-	if synth {
-		for _, rr := range down.Ns {
-			if soa, ok := rr.(*dns.SOA); ok {
-				if soa.Hdr.Ttl == 0 || soa.Minttl == 0 {
-					fkey = "dns64-negttl-zero"
-				}
-				break
-			}
-		}
-	}
-	if !synth && down != nil && got != nil && got != down && down.Rcode == 0 && down.AuthenticatedData && got.AuthenticatedData {
-		// NOERROR + AD whose AAAA records were all stripped and nothing could be synthesised
-		for _, rr := range down.Answer {
-			if _, ok := rr.(*dns.AAAA); ok {
-				fkey = "dns64-filtered-fallback-ad"
-			}
-		}
-	}
-	if qtype == dns.TypePTR {
-		if addr, ok := parseIP6ArpaName(strings.ToLower(qname)); ok && vC20IsMapped(addr) {
-			for _, p := range d.cfg.prefixes {
-				if !vC20IsMapped(p.net.IP) {
-					fkey = "dns64-zero-prefix-mapped"
-				}
-			}
-		}
-	}
 	desc := map[string]any{
 		"prefixes": cfg.DNS64.Prefixes, "clients": cfg.DNS64.ClientNetworks, "zones": cfg.DNS64.ExcludeZones,
 		"exclude_a": cfg.DNS64.ExcludeANetworks, "exclude_aaaa": cfg.DNS64.ExcludeAAAANetworks,
